@@ -711,102 +711,399 @@ mod verif_c16_msr {
     // canonical, so prior contents are assumed canonical in bits 12-63 (the
     // typed read goes through VirtAddr::new, which panics otherwise).
 
-    macro_rules! cet_harnesses {
-        ($Reg:ident, $IDX:ident, $idxtext:literal,
-         $read:ident, $write:ident, $update:ident,
-         $ob_read:literal, $ob_write:literal, $ob_update:literal) => {
-            #[kani::proof]
-            fn $read() {
-                let before = watch($IDX);
-                let old = before.msr_value;
-                kani::assume(canonical(old & !0xfff));
-                kani::cover!(true, concat!(stringify!($read), ": reachable"));
-                let (flags, page) = $Reg::read();
-                let m = verif_hw::m();
-                assert!(
-                    flags.bits() == old & CET_MODELLED,
-                    concat!($ob_read, ": flags == raw & MODELLED")
-                );
-                assert!(
-                    page.start_address().as_u64() == old & !0xfff,
-                    concat!($ob_read, ": legacy bitmap page == bits 12-63")
-                );
-                assert!(
-                    clean(m, 1) && rd(m, 0, $IDX, old) && m.regs_same_except(&before, field::NONE),
-                    concat!($ob_read, ": one rdmsr of ", $idxtext, ", nothing changes")
-                );
-            }
-
-            #[kani::proof]
-            fn $write() {
-                let before = watch($IDX);
-                let flags = CetFlags::from_bits_retain(kani::any::<u64>() & CET_MODELLED);
-                let (page, page_addr) = any_page();
-                kani::cover!(true, concat!(stringify!($write), ": reachable"));
-                $Reg::write(flags, page);
-                let expect = flags.bits() | page_addr;
-                {
-                    let m = verif_hw::m();
-                    assert!(
-                        m.msr_value == expect,
-                        concat!($ob_write, ": register == flags | page address (whole-register write)")
-                    );
-                    assert!(
-                        clean(m, 1) && wr(m, 0, $IDX, expect) && m.regs_same_except(&before, field::MSR),
-                        concat!($ob_write, ": exactly one wrmsr to ", $idxtext, ", nothing else changes")
-                    );
-                }
-                let (f2, p2) = $Reg::read();
-                assert!(
-                    f2 == flags && p2 == page,
-                    concat!($ob_write, ": read returns the flags and the page written")
-                );
-            }
-
-            #[kani::proof]
-            fn $update() {
-                let before = watch($IDX);
-                let old = before.msr_value;
-                kani::assume(canonical(old & !0xfff));
-                let chosen_flags = CetFlags::from_bits_retain(kani::any::<u64>() & CET_MODELLED);
-                let (chosen_page, chosen_addr) = any_page();
-                kani::cover!(true, concat!(stringify!($update), ": reachable"));
-                let mut calls: u8 = 0;
-                let mut seen: (u64, u64) = (0, 0);
-                let mut writes_before_f: usize = 0;
-                $Reg::update(|f, p| {
-                    calls += 1;
-                    seen = (f.bits(), p.start_address().as_u64());
-                    writes_before_f = verif_hw::count(Kind::Wrmsr);
-                    *f = chosen_flags;
-                    *p = chosen_page;
-                });
-                let m = verif_hw::m();
-                let expect = chosen_flags.bits() | chosen_addr;
-                assert!(calls == 1, concat!($ob_update, ": f runs exactly once"));
-                assert!(
-                    seen == (old & CET_MODELLED, old & !0xfff),
-                    concat!($ob_update, ": f sees the typed read of the old value")
-                );
-                assert!(writes_before_f == 0, concat!($ob_update, ": nothing is written before f ran"));
-                assert!(
-                    m.msr_value == expect,
-                    concat!($ob_update, ": the result of f is written like write")
-                );
-                assert!(
-                    clean(m, 2) && rd(m, 0, $IDX, old) && wr(m, 1, $IDX, expect)
-                        && m.regs_same_except(&before, field::MSR),
-                    concat!($ob_update, ": one rdmsr, then exactly one wrmsr to ", $idxtext)
-                );
-            }
-        };
+    //@ obligation C16 C16.UCet_read.decodes_register
+    #[kani::proof]
+    fn c16_ucet_read_decodes_register() {
+        let before = watch(IA32_U_CET);
+        let old = before.msr_value;
+        kani::assume(canonical(old & !0xfff));
+        kani::cover!(true, "c16_ucet_read_decodes_register: reachable");
+        let (flags, page) = UCet::read();
+        let m = verif_hw::m();
+        assert!(
+            flags.bits() == old & CET_MODELLED,
+            "C16.UCet_read.decodes_register: flags == raw & MODELLED"
+        );
+        assert!(
+            page.start_address().as_u64() == old & !0xfff,
+            "C16.UCet_read.decodes_register: legacy bitmap page == bits 12-63"
+        );
+        assert!(
+            clean(m, 1) && rd(m, 0, IA32_U_CET, old) && m.regs_same_except(&before, field::NONE),
+            "C16.UCet_read.decodes_register: one rdmsr of 0x6A0, nothing changes"
+        );
     }
 
-    //@ obligation C16 C16.UCet_read.decodes_register
     //@ obligation C16 C16.UCet_write.read_back
+    #[kani::proof]
+    fn c16_ucet_write_read_back() {
+        let before = watch(IA32_U_CET);
+        let flags = CetFlags::from_bits_retain(kani::any::<u64>() & CET_MODELLED);
+        let (page, page_addr) = any_page();
+        kani::cover!(true, "c16_ucet_write_read_back: reachable");
+        UCet::write(flags, page);
+        let expect = flags.bits() | page_addr;
+        {
+            let m = verif_hw::m();
+            assert!(
+                m.msr_value == expect,
+                "C16.UCet_write.read_back: register == flags | page address (whole-register write)"
+            );
+            assert!(
+                clean(m, 1) && wr(m, 0, IA32_U_CET, expect) && m.regs_same_except(&before, field::MSR),
+                "C16.UCet_write.read_back: exactly one wrmsr to 0x6A0, nothing else changes"
+            );
+        }
+        let (f2, p2) = UCet::read();
+        assert!(
+            f2 == flags && p2 == page,
+            "C16.UCet_write.read_back: read returns the flags and the page written"
+        );
+    }
+
     //@ obligation C16 C16.UCet_update.read_f_write
+    #[kani::proof]
+    fn c16_ucet_update_read_f_write() {
+        let before = watch(IA32_U_CET);
+        let old = before.msr_value;
+        kani::assume(canonical(old & !0xfff));
+        let chosen_flags = CetFlags::from_bits_retain(kani::any::<u64>() & CET_MODELLED);
+        let (chosen_page, chosen_addr) = any_page();
+        kani::cover!(true, "c16_ucet_update_read_f_write: reachable");
+        let mut calls: u8 = 0;
+        let mut seen: (u64, u64) = (0, 0);
+        let mut writes_before_f: usize = 0;
+        UCet::update(|f, p| {
+            calls += 1;
+            seen = (f.bits(), p.start_address().as_u64());
+            writes_before_f = verif_hw::count(Kind::Wrmsr);
+            *f = chosen_flags;
+            *p = chosen_page;
+        });
+        let m = verif_hw::m();
+        let expect = chosen_flags.bits() | chosen_addr;
+        assert!(calls == 1, "C16.UCet_update.read_f_write: f runs exactly once");
+        assert!(
+            seen == (old & CET_MODELLED, old & !0xfff),
+            "C16.UCet_update.read_f_write: f sees the typed read of the old value"
+        );
+        assert!(writes_before_f == 0, "C16.UCet_update.read_f_write: nothing is written before f ran");
+        assert!(
+            m.msr_value == expect,
+            "C16.UCet_update.read_f_write: the result of f is written like UCet::write"
+        );
+        assert!(
+            clean(m, 2)
+                && rd(m, 0, IA32_U_CET, old)
+                && wr(m, 1, IA32_U_CET, expect)
+                && m.regs_same_except(&before, field::MSR),
+            "C16.UCet_update.read_f_write: one rdmsr, then exactly one wrmsr to 0x6A0"
+        );
+    }
+
     //@ obligation C16 C16.SCet_read.decodes_register
+    #[kani::proof]
+    fn c16_scet_read_decodes_register() {
+        let before = watch(IA32_S_CET);
+        let old = before.msr_value;
+        kani::assume(canonical(old & !0xfff));
+        kani::cover!(true, "c16_scet_read_decodes_register: reachable");
+        let (flags, page) = SCet::read();
+        let m = verif_hw::m();
+        assert!(
+            flags.bits() == old & CET_MODELLED,
+            "C16.SCet_read.decodes_register: flags == raw & MODELLED"
+        );
+        assert!(
+            page.start_address().as_u64() == old & !0xfff,
+            "C16.SCet_read.decodes_register: legacy bitmap page == bits 12-63"
+        );
+        assert!(
+            clean(m, 1) && rd(m, 0, IA32_S_CET, old) && m.regs_same_except(&before, field::NONE),
+            "C16.SCet_read.decodes_register: one rdmsr of 0x6A2, nothing changes"
+        );
+    }
+
     //@ obligation C16 C16.SCet_write.read_back
+    #[kani::proof]
+    fn c16_scet_write_read_back() {
+        let before = watch(IA32_S_CET);
+        let flags = CetFlags::from_bits_retain(kani::any::<u64>() & CET_MODELLED);
+        let (page, page_addr) = any_page();
+        kani::cover!(true, "c16_scet_write_read_back: reachable");
+        SCet::write(flags, page);
+        let expect = flags.bits() | page_addr;
+        {
+            let m = verif_hw::m();
+            assert!(
+                m.msr_value == expect,
+                "C16.SCet_write.read_back: register == flags | page address (whole-register write)"
+            );
+            assert!(
+                clean(m, 1) && wr(m, 0, IA32_S_CET, expect) && m.regs_same_except(&before, field::MSR),
+                "C16.SCet_write.read_back: exactly one wrmsr to 0x6A2, nothing else changes"
+            );
+        }
+        let (f2, p2) = SCet::read();
+        assert!(
+            f2 == flags && p2 == page,
+            "C16.SCet_write.read_back: read returns the flags and the page written"
+        );
+    }
+
     //@ obligation C16 C16.SCet_update.read_f_write
-    fn c16_cet_directive_anchor() {}
+    #[kani::proof]
+    fn c16_scet_update_read_f_write() {
+        let before = watch(IA32_S_CET);
+        let old = before.msr_value;
+        kani::assume(canonical(old & !0xfff));
+        let chosen_flags = CetFlags::from_bits_retain(kani::any::<u64>() & CET_MODELLED);
+        let (chosen_page, chosen_addr) = any_page();
+        kani::cover!(true, "c16_scet_update_read_f_write: reachable");
+        let mut calls: u8 = 0;
+        let mut seen: (u64, u64) = (0, 0);
+        let mut writes_before_f: usize = 0;
+        SCet::update(|f, p| {
+            calls += 1;
+            seen = (f.bits(), p.start_address().as_u64());
+            writes_before_f = verif_hw::count(Kind::Wrmsr);
+            *f = chosen_flags;
+            *p = chosen_page;
+        });
+        let m = verif_hw::m();
+        let expect = chosen_flags.bits() | chosen_addr;
+        assert!(calls == 1, "C16.SCet_update.read_f_write: f runs exactly once");
+        assert!(
+            seen == (old & CET_MODELLED, old & !0xfff),
+            "C16.SCet_update.read_f_write: f sees the typed read of the old value"
+        );
+        assert!(writes_before_f == 0, "C16.SCet_update.read_f_write: nothing is written before f ran");
+        assert!(
+            m.msr_value == expect,
+            "C16.SCet_update.read_f_write: the result of f is written like SCet::write"
+        );
+        assert!(
+            clean(m, 2)
+                && rd(m, 0, IA32_S_CET, old)
+                && wr(m, 1, IA32_S_CET, expect)
+                && m.regs_same_except(&before, field::MSR),
+            "C16.SCet_update.read_f_write: one rdmsr, then exactly one wrmsr to 0x6A2"
+        );
+    }
+
+    // ------------------------------------------------------------------ Pat
+    // IA32_PAT: eight 8-bit entries, entry i in bits 8i .. 8i+7; encodings
+    // 0 UC, 1 WC, 4 WT, 5 WP, 6 WB, 7 UC- (SDM vol. 3A table 11-10). WRMSR raises
+    // #GP for the reserved encodings 2, 3 and for any of bits 3-7 of an entry,
+    // so the register cannot hold them: prior contents are assumed to consist of
+    // valid entries (Pat::read unwraps the decode).
+
+    fn pat_num(t: PatMemoryType) -> u64 {
+        match t {
+            PatMemoryType::StrongUncacheable => 0,
+            PatMemoryType::WriteCombining => 1,
+            PatMemoryType::WriteThrough => 4,
+            PatMemoryType::WriteProtected => 5,
+            PatMemoryType::WriteBack => 6,
+            PatMemoryType::Uncacheable => 7,
+        }
+    }
+    fn pat_entry_valid(b: u64) -> bool {
+        b == 0 || b == 1 || b == 4 || b == 5 || b == 6 || b == 7
+    }
+    fn any_pat() -> PatMemoryType {
+        match kani::any::<u8>() % 6 {
+            0 => PatMemoryType::StrongUncacheable,
+            1 => PatMemoryType::WriteCombining,
+            2 => PatMemoryType::WriteThrough,
+            3 => PatMemoryType::WriteProtected,
+            4 => PatMemoryType::WriteBack,
+            _ => PatMemoryType::Uncacheable,
+        }
+    }
+    fn pat_raw_valid(raw: u64) -> bool {
+        pat_entry_valid(raw & 0xff)
+            && pat_entry_valid((raw >> 8) & 0xff)
+            && pat_entry_valid((raw >> 16) & 0xff)
+            && pat_entry_valid((raw >> 24) & 0xff)
+            && pat_entry_valid((raw >> 32) & 0xff)
+            && pat_entry_valid((raw >> 40) & 0xff)
+            && pat_entry_valid((raw >> 48) & 0xff)
+            && pat_entry_valid(raw >> 56)
+    }
+    fn pat_pack(t: &[PatMemoryType; 8]) -> u64 {
+        pat_num(t[0])
+            | pat_num(t[1]) << 8
+            | pat_num(t[2]) << 16
+            | pat_num(t[3]) << 24
+            | pat_num(t[4]) << 32
+            | pat_num(t[5]) << 40
+            | pat_num(t[6]) << 48
+            | pat_num(t[7]) << 56
+    }
+
+    //@ obligation C16 C16.Pat_read.decodes_entries
+    #[kani::proof]
+    #[kani::unwind(9)]
+    fn c16_pat_read_decodes_entries() {
+        let before = watch(IA32_PAT);
+        let old = before.msr_value;
+        kani::assume(pat_raw_valid(old));
+        kani::cover!(true, "c16_pat_read_decodes_entries: reachable");
+        let t = Pat::read();
+        let m = verif_hw::m();
+        assert!(
+            pat_pack(&t) == old,
+            "C16.Pat_read.decodes_entries: entry i is the memory type encoded in bits 8i .. 8i+7"
+        );
+        assert!(
+            clean(m, 1) && rd(m, 0, IA32_PAT, old) && m.regs_same_except(&before, field::NONE),
+            "C16.Pat_read.decodes_entries: one rdmsr of 0x277, nothing changes"
+        );
+    }
+
+    //@ obligation C16 C16.Pat_write.read_back
+    #[kani::proof]
+    #[kani::unwind(9)]
+    fn c16_pat_write_read_back() {
+        let before = watch(IA32_PAT);
+        let table = [
+            any_pat(), any_pat(), any_pat(), any_pat(), any_pat(), any_pat(), any_pat(), any_pat(),
+        ];
+        kani::cover!(true, "c16_pat_write_read_back: reachable");
+        unsafe { Pat::write(table) };
+        let expect = pat_pack(&table);
+        {
+            let m = verif_hw::m();
+            assert!(
+                m.msr_value == expect,
+                "C16.Pat_write.read_back: PAT == the eight encodings, entry i in byte i"
+            );
+            assert!(
+                clean(m, 1) && wr(m, 0, IA32_PAT, expect) && m.regs_same_except(&before, field::MSR),
+                "C16.Pat_write.read_back: exactly one wrmsr to 0x277, nothing else changes"
+            );
+        }
+        let back = Pat::read();
+        assert!(back == table, "C16.Pat_write.read_back: read returns the table written");
+    }
+
+    // ------------------------------------------------------------- ApicBase
+
+    //@ obligation C16 C16.ApicBase_read.decodes_register
+    //@ obligation C16 C16.ApicBase_read_raw.frame_and_raw
+    #[kani::proof]
+    fn c16_apicbase_read_decodes_register() {
+        let before = watch(IA32_APIC_BASE);
+        let old = before.msr_value;
+        kani::cover!(true, "c16_apicbase_read_decodes_register: reachable");
+        let (frame, flags) = ApicBase::read();
+        {
+            let m = verif_hw::m();
+            assert!(
+                frame.start_address().as_u64() == old & PHYS_FRAME_MASK,
+                "C16.ApicBase_read.decodes_register: frame is bits 12-51"
+            );
+            assert!(
+                flags.bits() == old & APIC_FLAGS_MODELLED,
+                "C16.ApicBase_read.decodes_register: flags == raw & MODELLED"
+            );
+            assert!(
+                clean(m, 1) && rd(m, 0, IA32_APIC_BASE, old) && m.regs_same_except(&before, field::NONE),
+                "C16.ApicBase_read.decodes_register: one rdmsr of 0x1B, nothing changes"
+            );
+        }
+        let (frame2, raw) = ApicBase::read_raw();
+        let m = verif_hw::m();
+        assert!(
+            frame2.start_address().as_u64() == old & PHYS_FRAME_MASK && raw == old,
+            "C16.ApicBase_read_raw.frame_and_raw: (frame of bits 12-51, all 64 bits)"
+        );
+        assert!(
+            clean(m, 2) && rd(m, 1, IA32_APIC_BASE, old) && m.regs_same_except(&before, field::NONE),
+            "C16.ApicBase_read_raw.frame_and_raw: one rdmsr of 0x1B, nothing changes"
+        );
+    }
+
+    //@ obligation C16 C16.ApicBase_write_raw.stores_exactly
+    #[kani::proof]
+    fn c16_apicbase_write_raw_stores_exactly() {
+        let before = watch(IA32_APIC_BASE);
+        let (frame, addr) = any_frame();
+        let flags: u64 = kani::any();
+        kani::cover!(true, "c16_apicbase_write_raw_stores_exactly: reachable");
+        unsafe { ApicBase::write_raw(frame, flags) };
+        let m = verif_hw::m();
+        assert!(
+            m.msr_value == flags | addr,
+            "C16.ApicBase_write_raw.stores_exactly: register == flags | frame address, no old bit survives"
+        );
+        assert!(
+            clean(m, 1) && wr(m, 0, IA32_APIC_BASE, flags | addr) && m.regs_same_except(&before, field::MSR),
+            "C16.ApicBase_write_raw.stores_exactly: exactly one wrmsr to 0x1B, nothing else changes"
+        );
+    }
+
+    /// EXPECTED FINDING D3: `ApicBase::write` computes
+    /// `reserved = old & !ApicBaseFlags::all()`, which still contains the OLD
+    /// base (bits 12-51), and ORs the new frame onto it. The statement asks that
+    /// a typed write stores the given fields (frame AND flags), keeps only the
+    /// bits the type does not model, and that the next typed read returns what
+    /// was written. This harness is that statement; it is not weakened.
+    //@ obligation C16 C16.ApicBase_write.stores_base_and_flags
+    #[kani::proof]
+    fn c16_apicbase_write_stores_base_and_flags() {
+        let before = watch(IA32_APIC_BASE);
+        let old = before.msr_value;
+        let (frame, addr) = any_frame();
+        let flags = ApicBaseFlags::from_bits_retain(kani::any::<u64>() & APIC_FLAGS_MODELLED);
+        kani::cover!(true, "c16_apicbase_write_stores_base_and_flags: reachable");
+        unsafe { ApicBase::write(frame, flags) };
+        let modelled = PHYS_FRAME_MASK | APIC_FLAGS_MODELLED;
+        let expect = (old & !modelled) | addr | flags.bits();
+        {
+            let m = verif_hw::m();
+            assert!(
+                m.msr_value == expect,
+                "C16.ApicBase_write.stores_base_and_flags: new == (old & !(BASE | FLAGS)) | frame | flags"
+            );
+        }
+        let (f2, fl2) = ApicBase::read();
+        assert!(
+            f2 == frame && fl2 == flags,
+            "C16.ApicBase_write.stores_base_and_flags: the next typed read returns the frame and flags written"
+        );
+    }
+
+    /// What does hold for ApicBase::write on every input (so that edits to the
+    /// flag / reserved-bit / register-number handling are still seen while the
+    /// harness above is failing): outside the base field the result is exact.
+    //@ obligation C16 C16.ApicBase_write.flags_and_reserved
+    #[kani::proof]
+    fn c16_apicbase_write_flags_and_reserved() {
+        let before = watch(IA32_APIC_BASE);
+        let old = before.msr_value;
+        let (frame, addr) = any_frame();
+        let flags = ApicBaseFlags::from_bits_retain(kani::any::<u64>() & APIC_FLAGS_MODELLED);
+        kani::cover!(true, "c16_apicbase_write_flags_and_reserved: reachable");
+        unsafe { ApicBase::write(frame, flags) };
+        let m = verif_hw::m();
+        let new = m.msr_value;
+        assert!(
+            new & !PHYS_FRAME_MASK == (old & !(PHYS_FRAME_MASK | APIC_FLAGS_MODELLED)) | flags.bits(),
+            "C16.ApicBase_write.flags_and_reserved: outside bits 12-51: flags stored, unmodelled bits preserved"
+        );
+        assert!(
+            new & addr == addr,
+            "C16.ApicBase_write.flags_and_reserved: every bit of the new frame address is set"
+        );
+        assert!(
+            clean(m, 2) && rd(m, 0, IA32_APIC_BASE, old) && wr(m, 1, IA32_APIC_BASE, new),
+            "C16.ApicBase_write.flags_and_reserved: one rdmsr then exactly one wrmsr, both to 0x1B"
+        );
+        assert!(
+            m.regs_same_except(&before, field::MSR),
+            "C16.ApicBase_write.flags_and_reserved: no other register changes"
+        );
+    }
 }
